@@ -28,6 +28,8 @@ type Machine struct {
 	MaxSteps  int
 	LoopBound int
 	NoMerge   bool // disable if-conversion (debugging)
+	// NoOrderPrune disables the order-literal contradiction test in Decide.
+	NoOrderPrune bool
 	// CallHook lets the verifier replace a call by the callee's contract.
 	CallHook func(p *Path, fn *ssa.Function, args []Val, site ssa.Instruction) (Val, bool)
 	// LoopHook is called on every arrival at a loop header that carries an
@@ -159,6 +161,30 @@ func (p *Path) Decide(c *smt.Term) bool {
 		}
 		if h == nc {
 			return false
+		}
+	}
+	// forced decisions are detected before the recorded prefix is consulted,
+	// so that they never consume an entry of it (the test is deterministic)
+	if !p.M.NoOrderPrune {
+		// cheap certain-contradiction test on order literals
+		tOK := !OrderUnsat(append(append([]*smt.Term{}, p.PC...), c))
+		fOK := !OrderUnsat(append(append([]*smt.Term{}, p.PC...), nc))
+		if !fOK {
+			debugPrune(append(append([]*smt.Term{}, p.PC...), nc))
+		}
+		if !tOK {
+			debugPrune(append(append([]*smt.Term{}, p.PC...), c))
+		}
+		if tOK && !fOK {
+			p.PC = append(p.PC, c)
+			return true
+		}
+		if fOK && !tOK {
+			p.PC = append(p.PC, nc)
+			return false
+		}
+		if !tOK && !fOK {
+			p.Stop("infeasible")
 		}
 	}
 	if p.dpos < len(p.Dec) {
